@@ -244,13 +244,108 @@ func uniqueResult(h *ssa.Function, idx int) ssa.Value {
 			return nil
 		}
 		rv := RetVal(r, idx)
-		if c, ok := Unwrap(rv).(*ssa.Const); ok && (c.Value == nil || c.IsNil()) {
-			continue
+		if c, ok := Unwrap(rv).(*ssa.Const); ok {
+			if c.Value == nil || c.IsNil() {
+				continue
+			}
+			if k, isK := ConstInt(c); isK && k == 0 {
+				continue
+			}
+			if b, isB := ConstBool(c); isB && !b {
+				continue
+			}
 		}
 		if out != nil && out != rv {
 			return nil
 		}
 		out = rv
+	}
+	return out
+}
+
+// ResolveAll is Resolve for values that may stand for several caller values: a parameter of an absorbed helper with more than
+// one call site resolves to the argument of each site. A property "v is X" must then hold for every element.
+func ResolveAll(v ssa.Value) []ssa.Value {
+	return resolveAllD(v, 0)
+}
+
+func resolveAllD(v ssa.Value, d int) []ssa.Value {
+	r := Resolve(v)
+	p, ok := r.(*ssa.Parameter)
+	if !ok || d > absorbDepth {
+		return []ssa.Value{r}
+	}
+	g := p.Parent()
+	sites := SitesOf(g)
+	if len(sites) < 2 {
+		return []ssa.Value{r}
+	}
+	idx := -1
+	for k, q := range g.Params {
+		if q == p {
+			idx = k
+		}
+	}
+	var out []ssa.Value
+	for _, s := range sites {
+		if s.Common().IsInvoke() || idx < 0 || idx >= len(s.Common().Args) {
+			return []ssa.Value{r}
+		}
+		out = append(out, resolveAllD(s.Common().Args[idx], d+1)...)
+	}
+	return out
+}
+
+// ResolveIn is ResolveAll restricted to the call sites that lie in root's region (root itself, its closures, and the helpers
+// absorbed into them): what the value can be when the code runs as part of root.
+func ResolveIn(root *ssa.Function, v ssa.Value) []ssa.Value {
+	return resolveInD(root, v, 0)
+}
+
+func inRegion(root, f *ssa.Function) bool {
+	for f != nil {
+		if f == root || len(CallChains(root, f)) > 0 {
+			return true
+		}
+		for _, a := range WithAnon(root) {
+			if a == f || len(CallChains(a, f)) > 0 {
+				return true
+			}
+		}
+		f = f.Parent()
+	}
+	return false
+}
+
+func resolveInD(root *ssa.Function, v ssa.Value, d int) []ssa.Value {
+	r := Resolve(v)
+	p, ok := r.(*ssa.Parameter)
+	if !ok || d > absorbDepth {
+		return []ssa.Value{r}
+	}
+	g := p.Parent()
+	sites := SitesOf(g)
+	if len(sites) < 2 {
+		return []ssa.Value{r}
+	}
+	idx := -1
+	for k, q := range g.Params {
+		if q == p {
+			idx = k
+		}
+	}
+	var out []ssa.Value
+	for _, s := range sites {
+		if !inRegion(root, s.Parent()) {
+			continue
+		}
+		if s.Common().IsInvoke() || idx < 0 || idx >= len(s.Common().Args) {
+			return []ssa.Value{r}
+		}
+		out = append(out, resolveInD(root, s.Common().Args[idx], d+1)...)
+	}
+	if len(out) == 0 {
+		return []ssa.Value{r}
 	}
 	return out
 }
